@@ -6,7 +6,7 @@ extraction, native replay against the real code, known findings, evidence.  See 
 Exit codes of a check:  0 all claimed obligations discharged;  1 a named obligation is refuted
 (VIOLATION line printed);  2 undecided / infrastructure (never presented as a violation).
 """
-import os, sys, re, json, time, subprocess, hashlib, shutil, random, struct, traceback
+import subprocess, os, sys, re, json, time, subprocess, hashlib, shutil, random, struct, traceback
 from concurrent.futures import ProcessPoolExecutor, as_completed
 
 HERE = os.path.dirname(os.path.abspath(__file__))
@@ -926,6 +926,84 @@ def run_replay(build, shim, contract, inputs, workdir, tag, sanitize=False, rel_
     if 'NOT-SATISFIED' in so:
         res['pre'] = False
     res['exe'] = exe
+    return res
+
+
+def exhaustive_program(build, shim, contract):
+    """kind X: the real shim is executed natively on EVERY value of its single (<= 32-bit) argument in [lo, hi) (argv, hex); for each value that
+    satisfies the requires every ensures clause is evaluated (same clause text as kind F, natively).  Output: one line per clause."""
+    s = shim.view_sig()
+    if len(s['ins']) != 1 or s['ins'][0][0] not in ('u8', 'u16', 'u32', 'float') or s['outs']:
+        raise Infra('kind X needs a shim with exactly one argument of at most 32 bits and a return value: ' + shim.name)
+    (t, n), cppt = s['ins'][0], s['cpp_ins'][0]
+    L = ['// exhaustive native execution of %s against the real code in %s' % (contract.fn, REPO), '#define SHIM extern "C"',
+         build.driver.source(build.defines, only=[shim.name] + list(contract.uses)), '#include <cstdio>', '#include <cstdlib>',
+         'extern "C" {', '#include "ll2c_rt.h"', '#include "specs.h"', '}',
+         'int main(int argc, char** argv){', '  unsigned long long lo = strtoull(argv[1], 0, 16), hi = strtoull(argv[2], 0, 16), checked = 0;']
+    for k, (name, e) in enumerate(contract.ensures):
+        L.append('  unsigned long long bad%d = 0, first%d = 0;' % (k, k))
+    L.append('  for (unsigned long long it = lo; it < hi; ++it) {')
+    if t == 'float':
+        L.append('    float %s = ll2c_bits_f32((u32)it);' % n)
+        arg = n
+    else:
+        L.append('    %s %s = (%s)it;' % (t, n, t))
+        arg = '(%s)%s' % (cppt, n)
+    for name, e in contract.requires:
+        L.append('    if (!(%s)) continue;' % native_clause(e))
+    L.append('    ++checked;')
+    L.append('    %s RESULT = (%s)%s(%s);' % (s['ret'], s['ret'], shim.name, arg))
+    for k, (name, e) in enumerate(contract.ensures):
+        L.append('    if (!(%s)) { if (!bad%d) first%d = it; ++bad%d; }' % (native_clause(e), k, k, k))
+    L.append('  }')
+    L.append('  printf("XCHECKED %llu\\n", checked);')
+    for k, (name, e) in enumerate(contract.ensures):
+        L.append('  printf("XCLAUSE %s %%llu %%llx\\n", bad%d, first%d);' % (name, k, k))
+    L.append('  return 0; }')
+    return '\n'.join(L) + '\n'
+
+
+def run_exhaustive(build, shim, contract, workdir, tag, nproc=16, bits=None, timeout=1800):
+    """compile the exhaustive program with g++ -O2 and run it on nproc slices of the argument space; returns dict like a verifier result"""
+    s = shim.view_sig()
+    t = s['ins'][0][0]
+    nbits = bits or {'u8': 8, 'u16': 16, 'u32': 32, 'float': 32}[t]
+    src = os.path.join(workdir, 'exh_%s.cpp' % tag)
+    open(src, 'w').write(exhaustive_program(build, shim, contract))
+    exe = src[:-4]
+    flags = ['-O2', '-std=c++17', '-w', '-fno-strict-aliasing', '-ffp-contract=off', '-DNDEBUG'] + build.flags + ['-D' + d for d in build.defines]
+    rc, so, se, dt = sh(['g++'] + flags + ['-I' + REPO, '-I' + RT, '-I' + SPECS, src, '-o', exe, '-lm'], timeout=600, mem_gb=16)
+    if rc != 0:
+        return {'status': 'error', 'detail': 'exhaustive build failed: ' + se[-1500:]}
+    total = 1 << nbits
+    k = min(nproc, total)
+    step = (total + k - 1) // k
+    procs = []
+    t0 = time.time()
+    for i in range(k):
+        lo, hi = i * step, min(total, (i + 1) * step)
+        procs.append(subprocess.Popen([exe, '%x' % lo, '%x' % hi], stdout=subprocess.PIPE, stderr=subprocess.PIPE, preexec_fn=_child_setup))
+    res = {'status': 'done', 'clauses': {}, 'inputs': {}, 'checked': 0, 'detail': '', 'log': '$ %s <lo> <hi>  x %d slices of 2^%d values\n' % (exe, k, nbits)}
+    for p_ in procs:
+        try:
+            so, se = p_.communicate(timeout=max(1, timeout - (time.time() - t0)))
+        except subprocess.TimeoutExpired:
+            for q in procs:
+                _kill_tree(q)
+            return {'status': 'timeout', 'detail': 'exhaustive run: timeout after %ds' % timeout}
+        so = so.decode('utf8', 'replace')
+        if p_.returncode != 0:
+            return {'status': 'error', 'detail': 'exhaustive run: slice exited with %d: %s' % (p_.returncode, se.decode('utf8', 'replace')[-300:])}
+        m = re.search(r'XCHECKED (\d+)', so)
+        res['checked'] += int(m.group(1)) if m else 0
+        for m in re.finditer(r'XCLAUSE (\S+) (\d+) ([0-9a-f]+)', so):
+            nm, bad, first = m.group(1), int(m.group(2)), int(m.group(3), 16)
+            if bad and res['clauses'].get(nm) != 'FAILURE':
+                res['clauses'][nm] = 'FAILURE'
+                res['inputs'][nm] = {s['ins'][0][1]: first}
+            else:
+                res['clauses'].setdefault(nm, 'SUCCESS')
+    res['seconds'] = time.time() - t0
     return res
 
 
